@@ -12,6 +12,9 @@
 (*                        during the k-th hit (sequential runs)            *)
 (*   Dial{addr}           one dial (concurrent runs)                       *)
 (*   End{}                                                                 *)
+(*   Refresh{running_during_attack, running_after_stop, queries_...}       *)
+(*                        goroutines of the cache refresher, counted from  *)
+(*                        goroutine dumps by the driver                    *)
 (***************************************************************************)
 EXTENDS Integers, Sequences, FiniteSets, TLC, TraceKit
 
@@ -75,7 +78,15 @@ TEnd ==
             /\ seenA = Allowed /\ seenB = Allowed
     /\ l' = l + 1 /\ UNCHANGED <<hdr, n, seenA, seenB, uses, lastIdx>>
 
-TNext == TReset \/ TAttempt \/ TDial \/ TEnd
+\* a positive ttl starts one refresh goroutine, which re-resolves while the attack runs and is gone once the attack
+\* was stopped (Dial!RefresherStops); refreshing means more than the two initial queries (A and AAAA) reach the server
+TRefresh == /\ IsEv(l, "Refresh") /\ hdr.mode = "refresh"
+            /\ Ev(l).running_during_attack = 1
+            /\ Ev(l).running_after_stop = 0
+            /\ Ev(l).queries_during_attack > 2
+            /\ l' = l + 1 /\ UNCHANGED <<hdr, n, seenA, seenB, uses, lastIdx>>
+
+TNext == TReset \/ TAttempt \/ TDial \/ TEnd \/ TRefresh
 TSpec == TInit /\ [][TNext]_vars
 HW == HighWater(l)
 =============================================================================
